@@ -297,17 +297,23 @@ fn c01(ctx: &BoardCtx, p: &Pos, fen: &str, b: &mut Bitboard) {
         let mut buf: Vec<Move> = sentinel.into_iter().collect();
         let keep = buf.len();
         b.generate_pseudo_legal_moves_with_buffer(&mut buf);
-        let mut a: Vec<u64> = buf[keep..].iter().map(|m| m.bits).collect();
-        a.sort();
+        // whether the function appends to the buffer or starts by clearing it is not specified:
+        // both are accepted, the moves it contributes must be the plain form's
+        let tail = |buf: &Vec<Move>, n: usize| -> Vec<u64> {
+            let from = if buf.len() == n { 0 } else { keep.min(buf.len()) };
+            let mut v: Vec<u64> = buf[from..].iter().map(|m| m.bits).collect();
+            v.sort();
+            v
+        };
+        let a = tail(&buf, pseudo.len());
         let mut e: Vec<u64> = pseudo.iter().map(|m| m.bits).collect();
         e.sort();
-        if a != e || buf[..keep].iter().map(|m| m.bits).collect::<Vec<_>>() != sentinel.iter().map(|m| m.bits).collect::<Vec<_>>() {
+        if a != e {
             ctx.viol("entry_points:generate_pseudo_legal_moves_with_buffer_differs".into(), fen, json!({"with_buffer": buf.iter().map(|m| m.to_uci_string()).collect::<Vec<_>>(), "plain": pseudo.iter().map(|m| m.to_uci_string()).collect::<Vec<_>>()}));
         }
         let mut buf: Vec<Move> = sentinel.into_iter().collect();
         b.generate_pseudo_legal_non_quiescent_moves_with_buffer(&mut buf);
-        let mut a: Vec<u64> = buf[keep..].iter().map(|m| m.bits).collect();
-        a.sort();
+        let a = tail(&buf, nonq.len());
         if a != nonq_bits {
             ctx.viol("entry_points:generate_pseudo_legal_non_quiescent_moves_with_buffer_differs".into(), fen, json!({"with_buffer": buf.iter().map(|m| m.to_uci_string()).collect::<Vec<_>>(), "plain": nonq.iter().map(|m| m.to_uci_string()).collect::<Vec<_>>()}));
         }
